@@ -207,9 +207,19 @@ def read(fh, cocos=1):
     if len(words) < 3:
         raise ValueError("Expecting at least 3 numbers on first line")
 
-    idum = int(words[-3])  # noqa: F841
-    nx = int(words[-2])
-    ny = int(words[-1])
+    try:
+        idum = int(words[-3])  # noqa: F841
+        nx = int(words[-2])
+        ny = int(words[-1])
+    except ValueError:
+        # The three integers are written with format 3i4, so they are not separated
+        # by spaces when nx or ny >= 1000. Read them as fixed-width fields.
+        fields = header.rstrip("\r\n")[-12:]
+        if len(fields) < 12:
+            raise
+        idum = int(fields[0:4])  # noqa: F841
+        nx = int(fields[4:8])
+        ny = int(fields[8:12])
 
     print("  nx = {0}, ny = {1}".format(nx, ny))
 
